@@ -798,8 +798,12 @@ def inline_aliases(program, log):
     attributes (they may be properties)."""
     import copy
 
+    _ra_cache = {}
+
     def rebound_attrs(cls):
-        out = set()
+        if id(cls) in _ra_cache:
+            return _ra_cache[id(cls)]
+        out = _ra_cache.setdefault(id(cls), set())
         for m in cls.methods.values():
             if m.name == '__init__':
                 continue
@@ -827,18 +831,23 @@ def inline_aliases(program, log):
             return e.id, list(reversed(parts))
         return None, None
 
+    _fam_cache = {}
     for f in program.all_functions():
         fn = f.node
         cls = f.cls
         rebound = set()
         if cls is not None:
-            family = list(program.mro(cls)) + list(
-                program.subclasses(cls, strict=False))
-            for b in family:
-                rebound |= rebound_attrs(b)
-            # class-level defaults (x: bool = True) are values, not tables
-            for b in family:
-                rebound |= set(b.attrs)
+            if id(cls) not in _fam_cache:
+                family = list(program.mro(cls)) + list(
+                    program.subclasses(cls, strict=False))
+                fr = set()
+                for b in family:
+                    fr |= rebound_attrs(b)
+                # class-level defaults (x: bool = True) are values
+                for b in family:
+                    fr |= set(b.attrs)
+                _fam_cache[id(cls)] = fr
+            rebound = _fam_cache[id(cls)]
         params = {a.arg for a in fn.args.posonlyargs + fn.args.args
                   + fn.args.kwonlyargs}
         if fn.args.vararg:
